@@ -174,6 +174,7 @@ void h_lcm64_protocol(void)
     a_u64 l = a_u64_lcm(a, b);
     ASSERT(verif_gcd_calls == 1 && verif_gcd_a == a && verif_gcd_b == b, "lcm64: consults the 64-bit gcd of its two full-width arguments, once");
     if (g == 0) { ASSERT(l == 0, "lcm64: 0 when the gcd is 0"); } /* the value (a / g) * b for g != 0 needs two divider/multiplier circuits proved equal - out of the solvers' reach; bounded units */
+    if (a == 0 || b == 0) { ASSERT(l == 0, "lcm64: 0 when an argument is 0, whatever the gcd routine returns"); }
     VERIF_CANARY();
 }
 void h_lcm32_protocol(void)
@@ -183,6 +184,7 @@ void h_lcm32_protocol(void)
     a_u32 l = a_u32_lcm(a, b);
     ASSERT(verif_gcd_calls == 1 && verif_gcd_a == a && verif_gcd_b == b, "lcm32: consults the gcd of its two arguments, once");
     if (g == 0) { ASSERT(l == 0, "lcm32: 0 when the gcd is 0"); }
+    if (a == 0 || b == 0) { ASSERT(l == 0, "lcm32: 0 when an argument is 0, whatever the gcd routine returns"); }
     VERIF_CANARY();
 }
 
